@@ -467,6 +467,7 @@ func runC08(rc *RunCtx) {
 			}
 		}
 	}
+	ProbeHistory(rc, rc.Pick(240, 900), rc.Shard%2 == 0)
 	// (5) real keepers: natural P8/P9 failures
 	if rc.Shard%2 == 1 || rc.NShards == 1 {
 		for _, paused := range []bool{false, true} {
